@@ -1,6 +1,7 @@
 package checks
 
 import (
+	"context"
 	"errors"
 	"fmt"
 	"sort"
@@ -32,6 +33,10 @@ var errHung = errors.New("MakeRoot did not return: its goroutines are deadlocked
 
 // makeRootGuarded runs MakeRoot in a goroutine of its own.
 func makeRootGuarded(t *mast.Mast) (root *mast.Root, res world.Res) {
+	return makeRootGuardedCtx(ctx, t)
+}
+
+func makeRootGuardedCtx(ctx context.Context, t *mast.Mast) (root *mast.Root, res world.Res) {
 	type out struct {
 		root *mast.Root
 		res  world.Res
@@ -89,6 +94,60 @@ func c03State(cfg *world.Config, hist []world.Op, acc *pairAcc, st *c03Stats, ma
 	d := len(names)
 	if d == 0 {
 		return
+	}
+	// the caller's context is done before the call, or becomes done at the k-th Store call of the flush (the
+	// stores of the harness, like the in-memory and file stores of the library, do not look at it): whatever
+	// MakeRoot answers, a nil answer means a complete root
+	for k := -1; k < d; k++ {
+		w, t := build()
+		if w == nil {
+			return
+		}
+		pre := w.ReadContents(t)
+		cctx, cancel := context.WithCancel(ctx)
+		if k < 0 {
+			cancel()
+		} else {
+			var n int32
+			kk := int32(k)
+			w.Store.Gate = func(kind, name string) error {
+				if kind == "store" && atomic.AddInt32(&n, 1) == kk+1 {
+					cancel()
+				}
+				return nil
+			}
+		}
+		rootC, rc := makeRootGuardedCtx(cctx, t)
+		cancel()
+		w.Store.Gate = nil
+		atomic.AddInt64(&st.evals, 1)
+		desc := append(append([]string{}, desc0...), fmt.Sprintf("MakeRoot with a context that is cancelled at Store call #%d (-1: before the call)", k))
+		if rc.Err == errHung {
+			acc.add(cfg, "C03", []explore.Finding{{Sig: "C03|MakeRoot-never-returns|context-cancelled", What: "MakeRoot did not return after its context was cancelled", Detail: fmt.Sprint(hangGuard)}}, desc)
+			return
+		}
+		if rc.Panic != nil {
+			acc.add(cfg, "C03", []explore.Finding{{Sig: "C03|panic|context-cancelled|" + resClass(rc), What: "MakeRoot panicked when its context was cancelled", Detail: rc.String()}}, desc)
+			continue
+		}
+		if rc.Err == nil {
+			if err := reachCheck(cfg, w.Store, rootC); err != nil {
+				acc.add(cfg, "C03", []explore.Finding{{Sig: "C03|success-but-node-missing|context-cancelled", What: "MakeRoot reported success under a cancelled context although a node reachable from the returned root is not in the store", Detail: err.Error()}}, desc)
+				continue
+			}
+		} else if post := w.ReadContents(t); !post.Equal(pre) {
+			acc.add(cfg, "C03", []explore.Finding{{Sig: "C03|tree-unusable-after-failed-MakeRoot|context-cancelled|" + report.Norm(post.Bad), What: "after MakeRoot failed under a cancelled context the tree no longer answers Get/Size as before", Detail: fmt.Sprintf("before %v after %v", pre, post)}}, desc)
+			continue
+		}
+		// and a later call with a live context gives a complete root
+		root2, r2 := makeRootGuarded(t)
+		if r2.Err == nil && r2.Panic == nil {
+			if err := reachCheck(cfg, w.Store, root2); err != nil {
+				acc.add(cfg, "C03", []explore.Finding{{Sig: "C03|later-success-with-nodes-missing|context-cancelled", What: "after a MakeRoot under a cancelled context, a later MakeRoot reported success although a node reachable from the returned root is not in the store", Detail: err.Error()}}, append(desc, "then MakeRoot with a live context"))
+			}
+		} else if r2.Err != errHung {
+			acc.add(cfg, "C03", []explore.Finding{{Sig: "C03|later-MakeRoot-fails|context-cancelled|" + resClass(r2), What: "MakeRoot with a live context fails after an earlier call under a cancelled context", Detail: r2.String()}}, desc)
+		}
 	}
 	// enumerate failing subsets
 	var subsets [][]int
